@@ -1344,11 +1344,11 @@ async fn exec(ctx: &mut Ctx, line: &str) -> OpResult {
                     let topic2 = Arc::clone(&topic);
                     (Box::pin(async move { let _ = sm2.create_subscription(info, topic2).await; }), Some(topic), None)
                 }
-                "PUB" | "DT" => {
+                "PUB" | "DT" | "PUBS" => {
                     let topic_name = t.str().map_err(bad)?;
                     let topic = get_topic(&topic_name).ok_or_else(|| bad("XC: no such topic".into()))?;
                     let topic2 = Arc::clone(&topic);
-                    let fut: Fut = if kind == "PUB" {
+                    let fut: Fut = if kind != "DT" {
                         let data = t.bytes().map_err(bad)?;
                         Box::pin(async move {
                             let _ = topic2.publish_messages(vec![TopicMessage::new(data.into(), None)]).await;
@@ -1356,7 +1356,14 @@ async fn exec(ctx: &mut Ctx, line: &str) -> OpResult {
                     } else {
                         Box::pin(async move { let _ = topic2.delete().await; })
                     };
-                    (fut, Some(topic), None)
+                    if kind == "PUBS" {
+                        // the Publish meets a saturated mailbox of ONE of the topic's subscriptions
+                        let sub_name = t.str().map_err(bad)?;
+                        let sub = get_sub(&sub_name).ok_or_else(|| bad("XC: no such subscription".into()))?;
+                        (fut, None, Some(sub))
+                    } else {
+                        (fut, Some(topic), None)
+                    }
                 }
                 "DS" | "PULL" | "ACK" => {
                     let sub_name = t.str().map_err(bad)?;
